@@ -1,6 +1,7 @@
 package rhp
 
 import (
+	"fmt"
 	"go.sia.tech/core/types"
 )
 
@@ -230,7 +231,14 @@ func (r *RPCReadResponse) DecodeFrom(d *types.Decoder) {
 	//
 	// NOTE: for maximum efficiency, we should be doing this for every slice,
 	// but in most cases the extra performance isn't worth the aliasing issues.
-	dataLen := int(d.ReadUint64())
+	dataLen64 := d.ReadUint64()
+	if dataLen64 > SectorSize {
+		// a response carries (part of) a single sector; never allocate for,
+		// or slice by, a length the wire merely claims
+		d.SetErr(fmt.Errorf("data length (%v) exceeds sector size", dataLen64))
+		return
+	}
+	dataLen := int(dataLen64)
 	if cap(r.Data) < dataLen {
 		r.Data = make([]byte, dataLen)
 	}
